@@ -131,7 +131,8 @@ static ssize_t simfs_write_bytes(simfs::FS &F, simfs::OpenDesc &d, const unsigne
     if (d.append) d.pos = data.size();
     if (crash) {
         // torn write: only the first t bytes of this write reach the durable image
-        size_t t = (size_t)(F.crash_tear * (double)k); if (t >= k && k > 0) t = k - 1;
+        // crash_tear in [0,1): fraction of this write that reaches the file; negative: that many bytes short of the complete write
+        size_t t = F.crash_tear < 0 ? (k > (size_t)(-F.crash_tear) ? k - (size_t)(-F.crash_tear) : 0) : (size_t)(F.crash_tear * (double)k); if (t >= k && k > 0) t = k - 1;
         F.crash_torn_at = t;
         simfs::Bytes &img = F.image[d.path];
         if (img.size() < d.pos + t) img.resize(d.pos + t);
